@@ -64,3 +64,8 @@ make_tuple!(
     ]
     CTup4[A, B, C, D]
 );
+
+#[cfg(kani)]
+mod verif_kani {
+    include!(concat!(env!("H33P_CGLUE_VERIF_DIR"), "/tuple.rs"));
+}
